@@ -26,7 +26,7 @@ def build():
                 ("T-FMT", r"format!\(\"xn--\{idna_name\}\"\)", 'crate::vstr::cat2("xn--", &idna_name)'),
                 ("T-ITER", r"idna_parts\.join\(\"\.\"\)", "crate::vstr::join_strings(&idna_parts, '.')")],
         at=[("before", "parts.iter()", 1, "it:"),
-            ("before_stmt", "Ok(idna_parts", 1, """
+            ("before_tail", None, 1, """
     proof {
         let ps = views(parts@);
         let out = idna_parts@.map_values(|s: String| s@);
